@@ -288,6 +288,10 @@ type Cfg struct {
 	Path      string
 	Bootstrap []string      // multiaddrs (with /p2p/<id>) dialled at peer start
 	Retry     time.Duration // replicator retry interval (all steps)
+	// Wrap, when set, is applied to the root store on every OpenDB: the database and the peer
+	// (block service, bitswap) work on the wrapped store (fault injection), while Node.Store stays
+	// the raw store for the monitors' own observations.
+	Wrap func(corekv.TxnStore) corekv.TxnStore
 }
 
 // BusEv is one recorded bus event (update / merge / merge-complete).
@@ -349,7 +353,11 @@ func (n *Node) OpenDB(ctx context.Context) error {
 	if err != nil {
 		return err
 	}
-	d, err := db.NewDB(ctx, rs, db.NACInfo{}, immutable.None[dac.DocumentACP](), lens, db.WithEnabledSigning(false))
+	dbStore := rs
+	if n.Cfg.Wrap != nil {
+		dbStore = n.Cfg.Wrap(rs)
+	}
+	d, err := db.NewDB(ctx, dbStore, db.NACInfo{}, immutable.None[dac.DocumentACP](), lens, db.WithEnabledSigning(false))
 	if err != nil {
 		_ = rs.Close()
 		return err
